@@ -55,6 +55,8 @@ theorem sk_stmtEls (o : Option (Nat × List PStmt)) : PStmt.ShapedEls o ↔ Shp.
   cases o with
   | none => simp [PStmt.ShapedEls]
   | some p => obtain ⟨l, list⟩ := p; simp [PStmt.ShapedEls, sk_stmtList]
+@[simp] theorem sk_errVar (ev : Option (Nat × Bytes)) : Shp.ok ev ↔ True :=
+  ⟨fun _ => trivial, fun _ _ _ => ⟨trivial, (sk_bytes _).2 trivial⟩⟩
 theorem sk_stmtCatch (o : Option (Nat × Option (Nat × Bytes) × Nat × List PStmt)) :
     PStmt.ShapedCatch o ↔ Shp.ok o := by
   cases o with
@@ -80,12 +82,16 @@ theorem slotShape_nil (b : Bool) : SlotShape [] b := by simp [SlotShape]
 
 end oklemmas
 
+/-- what `parseArguments` returns: shaped arguments, and the slot flag is set if one of them is `_` -/
+def ArgsQ (p : List PExpr × Bool) : Prop := Shp.ok p.1 ∧ SlotShape p.1 p.2
+
 /-- closes a goal "`x` is shaped" from the hypotheses about its parts -/
-macro "sok" : tactic => `(tactic| first
+syntax "sok" : tactic
+macro_rules | `(tactic| sok) => `(tactic| first
   | trivial
   | assumption
   | (simp_all [PExpr.Shaped, PStmt.Shaped, PSet.Shaped, PCmd.Shaped, PPipe.Shaped, PParam.Shaped, PCmd.argList,
-      PSet.LenOkOpt, MulTok, sk_exprList, sk_exprOpt, sk_stmtList, sk_stmtEls, sk_stmtCatch, slotShape_nil]; done))
+      PSet.LenOkOpt, MulTok, ArgsQ, sk_exprList, sk_exprOpt, sk_stmtList, sk_stmtEls, sk_stmtCatch, slotShape_nil]; done))
 
 /-! ### the triple -/
 
@@ -244,7 +250,7 @@ macro "sstep" : tactic => `(tactic| first
   | sprim
   | scall
   | (refine Holds.pure ?_; try sok)
-  | (refine Holds.bind (P := ?P) ?hm (fun _ _ => ?hf); case hm => scall)
+  | (apply Holds.bind ?hm (fun _ _ => ?hf); case hm => scall)
   | refine Holds.bind (P := Shp.ok) ?_ (fun _ _ => ?_)
   | refine Holds.ite (fun _ => ?_) (fun _ => ?_)
   | (show Holds _ _; split))
@@ -288,9 +294,6 @@ macro_rules | `(tactic| sprim) => `(tactic| exact Holds.expectString _ _)
 end prims
 
 /-! ### the expression productions -/
-
-/-- what `parseArguments` returns: shaped arguments, and the slot flag is set if one of them is `_` -/
-def ArgsQ (p : List PExpr × Bool) : Prop := Shp.ok p.1 ∧ SlotShape p.1 p.2
 
 variable (cfg : Cfg)
 
@@ -521,5 +524,301 @@ theorem exprShapes_step (n : Nat) (ih : ExprShapes cfg n) : ExprShapes cfg (n + 
 theorem exprShapes_all : ∀ n, ExprShapes cfg n
   | 0 => exprShapes_zero cfg
   | n + 1 => exprShapes_step cfg n (exprShapes_all n)
+
+/-! ### assignments, commands, pipelines, block parameter lists -/
+
+/-- a recursive call or a production whose triple is a hypothesis -/
+macro_rules | `(tactic| scall) => `(tactic| (show Holds _ _; apply_assumption -exfalso <;> try sok))
+
+/-- what `assignLeftLoop` returns: shaped, assignable left sides, at least one -/
+def LeftQ (p : List PExpr × Bool) : Prop :=
+  Shp.ok p.1 ∧ (∀ l, l ∈ p.1 → assignable l.nt = true) ∧ p.1 ≠ []
+
+/-- what `assignRightLoop` returns: shaped right sides, at least one -/
+def RightQ (r : List PExpr) : Prop := Shp.ok r ∧ r ≠ []
+
+/-- what `assignmentOrExpression` returns: an expression, or an assignment which - outside a range header -
+    has as many right sides as left sides or is the lookup form -/
+def AoeQ (context : String) (r : PExpr ⊕ PSet) : Prop :=
+  match r with
+  | .inl e => Shp.ok e
+  | .inr s => Shp.ok s ∧ (context ≠ "range" → s.LenOk)
+
+/-- what `pipelineLoop` returns: shaped commands, at least one -/
+def CmdsQ (l : List PCmd) : Prop := Shp.ok l ∧ l ≠ []
+
+theorem leftShape_of (left : List PExpr) (isLet : Bool) (ha : ∀ l, l ∈ left → assignable l.nt = true)
+    (h : ¬(isLet = true ∧ (left.any fun o => decide (o.nt ≠ NT.ident ∧ o.nt ≠ NT.underscore)) = true)) :
+    ∀ l, l ∈ left → LeftShape isLet l := by
+  intro l hl
+  refine ⟨ha l hl, fun hlet => ?_⟩
+  simp only [hlet, true_and, List.any_eq_true, not_exists, not_and] at h
+  have := h l hl
+  simp at this
+  by_cases h1 : l.nt = NT.ident
+  · exact Or.inl h1
+  · exact Or.inr (this h1)
+
+macro_rules | `(tactic| sok) => `(tactic|
+  (simp_all [PExpr.Shaped, PStmt.Shaped, PSet.Shaped, PCmd.Shaped, PPipe.Shaped, PParam.Shaped, PCmd.argList,
+      PSet.LenOkOpt, MulTok, ArgsQ, sk_exprList, sk_exprOpt, sk_stmtList, sk_stmtEls, sk_stmtCatch, slotShape_nil,
+      LeftQ, RightQ, AoeQ, CmdsQ, PSet.LenOk, or_imp, forall_and]; done))
+
+theorem assignLeftLoop_shape (fuel : Nat) (ctx : String) : ∀ k left op ret, Shp.ok left →
+    (∀ l, l ∈ left → assignable l.nt = true) → Shp.ok op →
+    Holds (assignLeftLoop cfg fuel ctx k left op ret) LeftQ
+  | 0, _, _, _, _, _, _ => by rw [assignLeftLoop]; exact Holds.outOfFuel
+  | k + 1, left, op, ret, hl, ha, ho => by
+    have E := exprShapes_all cfg fuel
+    have ih := assignLeftLoop_shape fuel ctx k
+    rw [assignLeftLoop]
+    sauto
+    all_goals sok
+
+theorem assignRightLoop_shape (fuel : Nat) : ∀ k right, Shp.ok right →
+    Holds (assignRightLoop cfg fuel k right) RightQ
+  | 0, _, _ => by rw [assignRightLoop]; exact Holds.outOfFuel
+  | k + 1, right, hr => by
+    have E := exprShapes_all cfg fuel
+    have ih := assignRightLoop_shape fuel k
+    rw [assignRightLoop]
+    sauto
+    all_goals sok
+
+theorem assignmentOrExpression_shape (fuel : Nat) (ctx : String) :
+    Holds (assignmentOrExpression cfg fuel ctx) (AoeQ ctx) := by
+  have E := exprShapes_all cfg fuel
+  have hl := assignLeftLoop_shape cfg fuel ctx
+  have hr := assignRightLoop_shape cfg fuel
+  unfold assignmentOrExpression
+  sauto
+  all_goals
+    first
+    | sok
+    | (have hls := leftShape_of _ _ (‹LeftQ _›).2.1 ‹¬(_ = true ∧ _)›
+       sok)
+
+theorem command_shape (fuel : Nat) (base : Option PExpr) (hb : Shp.ok base) :
+    HoldsOk (command cfg fuel base) := by
+  have E := exprShapes_all cfg fuel
+  unfold command
+  sauto
+
+theorem pipelineLoop_shape (fuel : Nat) : ∀ k cmds, Shp.ok cmds → cmds ≠ [] →
+    Holds (pipelineLoop cfg fuel k cmds) CmdsQ
+  | 0, _, _, _ => by rw [pipelineLoop]; exact Holds.outOfFuel
+  | k + 1, cmds, hc, hne => by
+    have ih := pipelineLoop_shape fuel k
+    have hcmd := command_shape cfg fuel
+    rw [pipelineLoop]
+    sauto
+
+theorem pipeline_shape (fuel : Nat) (base : PExpr) (hb : Shp.ok base) : HoldsOk (pipeline cfg fuel base) := by
+  have hcmd := command_shape cfg fuel
+  have hloop := pipelineLoop_shape cfg fuel
+  unfold pipeline
+  sauto
+  all_goals sok
+
+theorem blockParamsLoop_shape (fuel : Nat) (isDecl : Bool) (ctx : String) : ∀ k acc, Shp.ok acc →
+    HoldsOk (blockParamsLoop cfg fuel isDecl ctx k acc)
+  | 0, _, _ => by rw [blockParamsLoop]; exact Holds.outOfFuel
+  | k + 1, acc, ha => by
+    have E := exprShapes_all cfg fuel
+    have ih := blockParamsLoop_shape fuel isDecl ctx k
+    rw [blockParamsLoop]
+    sauto
+
+theorem blockParametersList_shape (fuel : Nat) (isDecl : Bool) (ctx : String) :
+    HoldsOk (blockParametersList cfg fuel isDecl ctx) := by
+  have hloop := blockParamsLoop_shape cfg fuel isDecl ctx
+  unfold blockParametersList
+  sauto
+
+/-! ### statements -/
+
+/-- the header of an `if` / `range`: an `if` (`allowElseIf`) header's assignment has matching sides, and there is
+    an assignment or an expression -/
+def HeadQ (a : Bool) (p : Option PSet × Option PExpr) : Prop :=
+  Shp.ok p.1 ∧ Shp.ok p.2 ∧ (a = true → PSet.LenOkOpt p.1) ∧ (p.1 = none → p.2 ≠ none)
+
+macro_rules | `(tactic| sok) => `(tactic|
+  (simp_all [PExpr.Shaped, PStmt.Shaped, PSet.Shaped, PCmd.Shaped, PPipe.Shaped, PParam.Shaped, PCmd.argList,
+      PSet.LenOkOpt, MulTok, ArgsQ, sk_exprList, sk_exprOpt, sk_stmtList, sk_stmtEls, sk_stmtCatch, slotShape_nil,
+      LeftQ, RightQ, AoeQ, CmdsQ, HeadQ]; done))
+
+structure StmtShapes (n : Nat) : Prop where
+  itemListLoop : ∀ terms acc, Shp.ok acc → HoldsOk (itemListLoop cfg n terms acc)
+  itemList : ∀ terms, HoldsOk (itemList cfg n terms)
+  textOrAction : HoldsOk (textOrAction cfg n)
+  action : HoldsOk (action cfg n)
+  parseInclude : HoldsOk (parseInclude cfg n)
+  parseBlock : HoldsOk (parseBlock cfg n)
+  parseYield : HoldsOk (parseYield cfg n)
+  parseControl : ∀ a ctx, (a = true → ctx ≠ "range") → HoldsOk (parseControl cfg n a ctx)
+  parseTry : HoldsOk (parseTry cfg n)
+  parseCatch : HoldsOk (parseCatch cfg n)
+
+theorem stmtShapes_zero : StmtShapes cfg 0 := by
+  constructor <;> intros <;> first
+    | (rw [itemListLoop]; exact Holds.outOfFuel)
+    | (rw [itemList]; exact Holds.outOfFuel)
+    | (rw [textOrAction]; exact Holds.outOfFuel)
+    | (rw [action]; exact Holds.outOfFuel)
+    | (rw [parseInclude]; exact Holds.outOfFuel)
+    | (rw [parseBlock]; exact Holds.outOfFuel)
+    | (rw [parseYield]; exact Holds.outOfFuel)
+    | (rw [parseControl]; exact Holds.outOfFuel)
+    | (rw [parseTry]; exact Holds.outOfFuel)
+    | (rw [parseCatch]; exact Holds.outOfFuel)
+
+theorem ss_itemListLoop (n : Nat) (ih : StmtShapes cfg n) :
+    ∀ terms acc, Shp.ok acc → HoldsOk (itemListLoop cfg (n + 1) terms acc) := by
+  intro terms acc hacc
+  obtain ⟨i1, i2, i3, i4, i5, i6, i7, i8, i9, i10⟩ := ih
+  have E := exprShapes_all cfg n
+  have a1 := assignmentOrExpression_shape cfg n
+  have a2 := pipeline_shape cfg n
+  have a3 := blockParametersList_shape cfg n
+  rw [itemListLoop]
+  sauto
+
+theorem ss_itemList (n : Nat) (ih : StmtShapes cfg n) :
+    ∀ terms, HoldsOk (itemList cfg (n + 1) terms) := by
+  intro terms
+  obtain ⟨i1, i2, i3, i4, i5, i6, i7, i8, i9, i10⟩ := ih
+  have E := exprShapes_all cfg n
+  have a1 := assignmentOrExpression_shape cfg n
+  have a2 := pipeline_shape cfg n
+  have a3 := blockParametersList_shape cfg n
+  rw [itemList]
+  sauto
+
+theorem ss_textOrAction (n : Nat) (ih : StmtShapes cfg n) :
+    HoldsOk (textOrAction cfg (n + 1)) := by
+  obtain ⟨i1, i2, i3, i4, i5, i6, i7, i8, i9, i10⟩ := ih
+  have E := exprShapes_all cfg n
+  have a1 := assignmentOrExpression_shape cfg n
+  have a2 := pipeline_shape cfg n
+  have a3 := blockParametersList_shape cfg n
+  rw [textOrAction]
+  sauto
+
+theorem ss_action (n : Nat) (ih : StmtShapes cfg n) :
+    HoldsOk (action cfg (n + 1)) := by
+  obtain ⟨i1, i2, i3, i4, i5, i6, i7, i8, i9, i10⟩ := ih
+  have E := exprShapes_all cfg n
+  have a1 := assignmentOrExpression_shape cfg n
+  have a2 := pipeline_shape cfg n
+  have a3 := blockParametersList_shape cfg n
+  rw [action]
+  sauto
+
+theorem ss_parseInclude (n : Nat) (ih : StmtShapes cfg n) :
+    HoldsOk (parseInclude cfg (n + 1)) := by
+  obtain ⟨i1, i2, i3, i4, i5, i6, i7, i8, i9, i10⟩ := ih
+  have E := exprShapes_all cfg n
+  have a1 := assignmentOrExpression_shape cfg n
+  have a2 := pipeline_shape cfg n
+  have a3 := blockParametersList_shape cfg n
+  rw [parseInclude]
+  sauto
+
+theorem ss_parseBlock (n : Nat) (ih : StmtShapes cfg n) :
+    HoldsOk (parseBlock cfg (n + 1)) := by
+  obtain ⟨i1, i2, i3, i4, i5, i6, i7, i8, i9, i10⟩ := ih
+  have E := exprShapes_all cfg n
+  have a1 := assignmentOrExpression_shape cfg n
+  have a2 := pipeline_shape cfg n
+  have a3 := blockParametersList_shape cfg n
+  rw [parseBlock]
+  sauto
+
+theorem ss_parseYield (n : Nat) (ih : StmtShapes cfg n) :
+    HoldsOk (parseYield cfg (n + 1)) := by
+  obtain ⟨i1, i2, i3, i4, i5, i6, i7, i8, i9, i10⟩ := ih
+  have E := exprShapes_all cfg n
+  have a1 := assignmentOrExpression_shape cfg n
+  have a2 := pipeline_shape cfg n
+  have a3 := blockParametersList_shape cfg n
+  rw [parseYield]
+  sauto
+
+theorem ss_parseControl (n : Nat) (ih : StmtShapes cfg n) :
+    ∀ a ctx, (a = true → ctx ≠ "range") → HoldsOk (parseControl cfg (n + 1) a ctx) := by
+  intro allowElseIf ctx hctx
+  obtain ⟨i1, i2, i3, i4, i5, i6, i7, i8, i9, i10⟩ := ih
+  have E := exprShapes_all cfg n
+  have a1 := assignmentOrExpression_shape cfg n
+  have a2 := pipeline_shape cfg n
+  have a3 := blockParametersList_shape cfg n
+  rw [parseControl]
+  refine Holds.bind (P := Shp.ok) (by sprim) (fun line _ => ?_)
+  refine Holds.bind (P := HeadQ allowElseIf) ?_ (fun p hp => ?_)
+  · sauto
+  · sauto
+
+theorem ss_parseTry (n : Nat) (ih : StmtShapes cfg n) :
+    HoldsOk (parseTry cfg (n + 1)) := by
+  obtain ⟨i1, i2, i3, i4, i5, i6, i7, i8, i9, i10⟩ := ih
+  have E := exprShapes_all cfg n
+  have a1 := assignmentOrExpression_shape cfg n
+  have a2 := pipeline_shape cfg n
+  have a3 := blockParametersList_shape cfg n
+  rw [parseTry]
+  sauto
+
+theorem ss_parseCatch (n : Nat) (ih : StmtShapes cfg n) :
+    HoldsOk (parseCatch cfg (n + 1)) := by
+  obtain ⟨i1, i2, i3, i4, i5, i6, i7, i8, i9, i10⟩ := ih
+  have E := exprShapes_all cfg n
+  have a1 := assignmentOrExpression_shape cfg n
+  have a2 := pipeline_shape cfg n
+  have a3 := blockParametersList_shape cfg n
+  rw [parseCatch]
+  sauto
+
+theorem stmtShapes_step (n : Nat) (ih : StmtShapes cfg n) : StmtShapes cfg (n + 1) where
+  itemListLoop := ss_itemListLoop cfg n ih
+  itemList := ss_itemList cfg n ih
+  textOrAction := ss_textOrAction cfg n ih
+  action := ss_action cfg n ih
+  parseInclude := ss_parseInclude cfg n ih
+  parseBlock := ss_parseBlock cfg n ih
+  parseYield := ss_parseYield cfg n ih
+  parseControl := ss_parseControl cfg n ih
+  parseTry := ss_parseTry cfg n ih
+  parseCatch := ss_parseCatch cfg n ih
+
+theorem stmtShapes_all : ∀ n, StmtShapes cfg n
+  | 0 => stmtShapes_zero cfg
+  | n + 1 => stmtShapes_step cfg n (stmtShapes_all n)
+
+/-! ### the template level -/
+
+theorem prologueLoop_shape : ∀ k skipped, Shp.ok skipped → HoldsOk (prologueLoop cfg k skipped)
+  | 0, _, _ => by rw [prologueLoop]; exact Holds.outOfFuel
+  | k + 1, skipped, hs => by
+    have ih := prologueLoop_shape k
+    rw [prologueLoop]
+    sauto
+
+theorem bodyLoop_shape (fuel : Nat) : ∀ k acc, Shp.ok acc → HoldsOk (bodyLoop cfg fuel k acc)
+  | 0, _, _ => by rw [bodyLoop]; exact Holds.outOfFuel
+  | k + 1, acc, ha => by
+    have ih := bodyLoop_shape fuel k
+    have h1 := (stmtShapes_all cfg fuel).textOrAction
+    rw [bodyLoop]
+    sauto
+
+theorem parseTemplate_shape (fuel : Nat) : HoldsOk (parseTemplate cfg fuel) := by
+  have h1 := prologueLoop_shape cfg
+  have h2 := bodyLoop_shape cfg fuel
+  unfold parseTemplate
+  sauto
+  split <;> sok
+
+theorem initial_JS (input name : Bytes) (toks : List Item) : JS { input := input, name := name, toks := toks } :=
+  fun b hb => by simp at hb
 
 end JetVerif.Parse
